@@ -9,6 +9,7 @@ use std::io::{self, ErrorKind};
 #[cfg(unix)]
 use std::os::unix::fs::FileTypeExt;
 use std::path::{Path, PathBuf};
+use std::rc::Rc;
 
 use walkdir::DirEntry;
 
@@ -204,6 +205,8 @@ pub struct WalkEntry {
     follow: Follow,
     /// Cached metadata.
     meta: OnceCell<Result<Metadata, WalkError>>,
+    /// The starting point this entry was found under, as given on the command line.
+    starting_point: Option<Rc<Path>>,
 }
 
 impl WalkEntry {
@@ -213,7 +216,21 @@ impl WalkEntry {
             inner: Entry::Explicit(path.into(), depth),
             follow,
             meta: OnceCell::new(),
+            starting_point: None,
         }
+    }
+
+    /// Record the starting point this entry was found under.
+    pub fn with_starting_point(mut self, starting_point: &Rc<Path>) -> Self {
+        self.starting_point = Some(Rc::clone(starting_point));
+        self
+    }
+
+    /// Get the starting point this entry was found under, exactly as it was
+    /// given (the path of a deeper entry no longer tells: `d` and `d/` both
+    /// lead to `d/file`).
+    pub fn starting_point(&self) -> Option<&Path> {
+        self.starting_point.as_deref()
     }
 
     /// Convert a [walkdir::DirEntry] to a [WalkEntry].  Errors due to broken symbolic links will be
@@ -234,6 +251,7 @@ impl WalkEntry {
                         inner: Entry::WalkDir(entry),
                         follow,
                         meta: OnceCell::new(),
+                        starting_point: None,
                     }
                 };
                 Ok(ret)
@@ -246,6 +264,7 @@ impl WalkEntry {
                             inner: Entry::Explicit(path.into(), depth),
                             follow: Follow::Never,
                             meta: Ok(meta).into(),
+                            starting_point: None,
                         });
                     }
                 }
